@@ -93,6 +93,84 @@ class Session:
             return {s}
         return None
 
+    def producer_sign(self, dag, name, _stack=()):
+        """'pos' for count aggregates (every person is in his own group); 'nonneg' for sums of booleans or of
+        non-negative columns; for rules the sign of the abstract result (memoised per date)"""
+        cache = self.__dict__.setdefault("_psign", {})
+        key = (dag.date, name)
+        if key in cache:
+            return cache[key]
+        if name in _stack or len(_stack) > 12:
+            return None
+        node = dag.nodes.get(name)
+        out = None
+        if node is None:
+            out = None
+        elif node.kind == "grp_agg" and node.spec.get("aggr") == "count":
+            out = "pos"
+        elif node.kind in ("grp_agg", "pid_agg") and node.spec.get("aggr") in ("sum", "max", "mean", "min"):
+            src = node.spec.get("source_col")
+            if node.spec.get("aggr") == "sum" and self.producer_kind(dag, src) == {"bool"}:
+                out = "nonneg"
+            else:
+                sg = self.producer_sign(dag, src, (*_stack, name))
+                out = "nonneg" if sg in ("pos", "nonneg") else None  # groups / pointers may be empty: no 'pos'
+                if node.kind == "grp_agg" and sg == "pos":
+                    out = "pos"  # every person is a member of his own group
+        elif node.kind == "time":
+            out = self.producer_sign(dag, node.args[0], (*_stack, name))
+        elif node.kind == "rule" and self.is_scalar_rule(node.rule):
+            from .absint import sign_of
+
+            cache[key] = None  # cut cycles
+            try:
+                out = sign_of(self.analyse_rule(node.rule, dag.date).res)
+            except Exception:  # noqa: BLE001
+                out = None
+        cache[key] = out
+        return out
+
+    def params_only_value(self, dag, name, _stack=()):
+        """abstract value of a node that (transitively) depends on parameters only: such a node has the
+        same value in every row, so consumers can be partially evaluated with it (rounding applied)."""
+        cache = self.__dict__.setdefault("_pov", {})
+        key = (dag.date, name)
+        if key in cache:
+            return cache[key]
+        node = dag.nodes.get(name)
+        out = None
+        if node is not None and node.kind == "rule" and name not in _stack and self.is_scalar_rule(node.rule):
+            r = node.rule
+            args = [a for a in r.argnames if not a.endswith("_params") and a not in r.args_with_default]
+            sub = {}
+            ok = True
+            for a in args:
+                v = self.params_only_value(dag, a, (*_stack, name))
+                if v is None:
+                    ok = False
+                    break
+                sub[a] = v
+            if ok:
+                params, _, _ = self.em.params(dag.date)
+                env, _ = self.rule_env(r, dag, params, arg_overrides=sub)
+                it = Interp(self.repo, r.mod)
+                try:
+                    res, _ = it.run_function(r.node, env)
+                except Exception:  # noqa: BLE001
+                    res = None
+                bad = any(e[0] in ("param-missing", "unknown-call", "unknown-name", "unhandled-stmt") for e in it.events)
+                from .absint import alts as _alts, mk_oneof
+
+                a = _alts(res) if res is not None and not bad else None
+                if a is not None and all(isinstance(x, (int, float)) and not isinstance(x, bool) or isinstance(x, bool) for x in a):
+                    if r.rounding_key:
+                        spec = params.get(r.rounding_key, {}).get("rounding", {}).get(name) if isinstance(params.get(r.rounding_key), dict) else None
+                        a = [_apply_rounding(x, spec) for x in a] if spec and "base" in spec and "direction" in spec else None
+                    if a is not None and all(x is not None for x in a):
+                        out = mk_oneof(a)
+        cache[key] = out
+        return out
+
     def rule_env(self, r, dag, params, arg_overrides=None):
         env, notes = {}, []
         for a, ann in r.args:
@@ -107,12 +185,16 @@ class Session:
             if arg_overrides and a in arg_overrides:
                 env[a] = arg_overrides[a]
                 continue
+            pv = self.params_only_value(dag, a)
+            if pv is not None:
+                env[a] = pv
+                continue
             pk = self.producer_kind(dag, a)
             if pk is None:
                 k = _ann_kind(ann)
                 pk = {k} if k else {"obj"}
                 notes.append(("producer-missing", a))
-            env[a] = Abs(pk, deps={a}, sym=a)
+            env[a] = Abs(pk, deps={a}, sym=a, sign=self.producer_sign(dag, a))
         return env, notes
 
     def analyse_rule(self, r, date, mode="kinds", assign=None, arg_overrides=None):
@@ -140,6 +222,27 @@ class Session:
                 continue
             out[r.qual] = rr.summary() if rr else ("crash", "recursion")
         return out
+
+
+def _apply_rounding(x, spec):
+    """model of the rounding wrapper: base * ceil|floor|round(x / base) (+ offset when the loader transfers it)"""
+    import math
+
+    import numpy
+
+    try:
+        base, direction = spec["base"], spec["direction"]
+        if direction == "up":
+            r = base * math.ceil(x / base)
+        elif direction == "down":
+            r = base * math.floor(x / base)
+        elif direction == "nearest":
+            r = base * float(numpy.round(x / base))
+        else:
+            return None
+        return r + spec.get("to_add_after_rounding", 0)
+    except Exception:  # noqa: BLE001
+        return None
 
 
 def _ann_kind(ann):
@@ -197,7 +300,7 @@ def _den_summary(v):
             return ("alts", min(vals), max(vals), any(x == 0 for x in vals), len(vals))
         except Exception:  # noqa: BLE001
             return ("alts-nonnum", None, None, True, len(a))
-    return ("abs", sorted(kinds(v)), sorted(v.deps), getattr(v, "sym", None))
+    return ("abs", sorted(kinds(v)), sorted(v.deps), getattr(v, "sym", None), getattr(v, "sign", None))
 
 
 def get_session(root):
